@@ -169,18 +169,23 @@ func (d *Decimal) setString(c *Context, s string) (Condition, error) {
 		return 0, nil
 	}
 
-	exps := make([]int64, 0, 2)
+	// The exponent of the value is the written exponent minus the number of
+	// fraction digits. Only their sum is subject to the exponent limits:
+	// checked one by one, a long fraction (1.<100001 digits>E+50001, which is
+	// what Text('E') writes for a coefficient of 100002 digits) or a large
+	// written exponent (0.001E+100002) was rejected although the value is in
+	// range.
+	var exp10 int64
 	if i := strings.IndexByte(s, 'e'); i >= 0 {
 		exp, err := strconv.ParseInt(s[i+1:], 10, 32)
 		if err != nil {
 			return 0, fmt.Errorf("parse exponent: %s: %w", s[i+1:], err)
 		}
-		exps = append(exps, exp)
+		exp10 = exp
 		s = s[:i]
 	}
 	if i := strings.IndexByte(s, '.'); i >= 0 {
-		exp := int64(len(s) - i - 1)
-		exps = append(exps, -exp)
+		exp10 -= int64(len(s) - i - 1)
 		s = s[:i] + s[i+1:]
 	}
 	// The integer parser below also accepts a leading sign, which the numeric
@@ -193,7 +198,7 @@ func (d *Decimal) setString(c *Context, s string) (Condition, error) {
 	}
 	// No parse errors, can now flag as finite.
 	d.Form = Finite
-	return c.goError(d.setExponent(c, unknownNumDigits, 0, exps...))
+	return c.goError(d.setExponent(c, unknownNumDigits, 0, exp10))
 }
 
 // NewFromString creates a new decimal from s. It has no restrictions on
